@@ -160,7 +160,16 @@ def gen_init(rng, nq, classical):
     m = rng.randrange(3)
     if m == 0:
         return None
-    qc = QuantumCircuit(nq)
+    # the initial-state circuit may own (idle) classical registers: they do not change the prepared state
+    c = rng.randrange(4)
+    if c == 0:
+        qc = QuantumCircuit(nq, nq)
+    elif c == 1:
+        from qiskit.circuit import ClassicalRegister, QuantumRegister
+
+        qc = QuantumCircuit(QuantumRegister(nq, "q"), ClassicalRegister(1, "flag"))
+    else:
+        qc = QuantumCircuit(nq)
     qc.x(rng.randrange(nq))
     if m == 2 and not classical:
         qc.h(nq - 1)
@@ -215,7 +224,8 @@ def compose(init, qc, params):
 
     full = QuantumCircuit(qc.num_qubits)
     if init is not None:
-        full.compose(init, inplace=True)
+        for inst in init.data:  # quantum instructions only (the initial state may own idle classical registers)
+            full.append(inst.operation, [init.find_bit(q).index for q in inst.qubits])
     full.compose(qc.assign_parameters(params), inplace=True)
     return full
 
@@ -395,7 +405,8 @@ def one_case(ctx, rng, kind, stack, classical, tag):
         callers.append(([c for c, _ in cs], [p for _, p in cs]))
     inp = {"kind": kind, "stack": stack, "classical": classical, "n_qubits": nq, "init": None if init is None else [i.operation.name for i in init.data],
            "callers": [{"circuits": [[(i.operation.name, [c.find_bit(q).index for q in i.qubits]) for i in c.data] for c in cs], "params": ps} for cs, ps in callers], **desc}
-    ctx.case(inp, nontrivial=stack != "plain", tags=[tag, "kind:" + kind, "stack:" + stack, "classical" if classical else "quantum", f"callers:{n_callers}"])
+    ctx.case(inp, nontrivial=stack != "plain", tags=[tag, "kind:" + kind, "stack:" + stack, "classical" if classical else "quantum", f"callers:{n_callers}",
+                                                      "init:none" if init is None else ("init:with-cregs" if init.num_clbits else "init:plain")])
 
     results = [None] * n_callers
     errors = []
